@@ -718,6 +718,63 @@ theorem so3_retr_taylor (eps : ℝ) (x : Vec3 ℝ) (h : ¬ eps < x.norm) (h1 : x
 example : ∃ (eps : ℝ) (x : Vec3 ℝ), 0 ≤ eps ∧ eps < x.norm :=
   ⟨0, ⟨1, 0, 0⟩, le_rfl, by simp [Vec3.norm, Vec3.normSq]⟩
 
+/-! ## hardening pass: statelessness, independence of per-call settings, object sharing -/
+
+/-- **The cache is transparent**: starting a call from the cached loss or recomputing the loss at the
+given parameters gives the same call (the cache is only an optimisation) — provided the cache is true. -/
+theorem cache_transparent (p : P) (s : S) :
+    lmStep pr reject e (some (pr.lossAt p)) p s = lmStep pr reject e none p s := rfl
+
+/-- **Nothing but (parameters, param group, cached loss) carries over between calls**: a call does not
+read the previous `reject_count` or `last` (a stale counter cannot influence the next call). -/
+theorem lmCall_stateless (o o' : Opt P S ℝ) (hp : o.p = o'.p) (hs : o.s = o'.s) (hc : o.cached = o'.cached) :
+    lmCall pr reject o e = lmCall pr reject o' e := by
+  unfold lmCall; rw [hp, hs, hc]
+
+/-- **Re-using an optimizer object = continuing from its state**: a history split anywhere. -/
+theorem lmRun_append (o : Opt P S ℝ) (es₁ es₂ : List (Env P D S ℝ)) :
+    lmRun pr reject o (es₁ ++ es₂) = lmRun pr reject (lmRun pr reject o es₁) es₂ := by
+  unfold lmRun; rw [List.foldl_append]
+
+/-- **`reject` may differ from call to call**: every call still caches the true loss and respects *its own*
+`reject` (the bound and the "unless exhausted" clause refer to the value in force during that call). -/
+theorem lmRunV_consistent (hinv : ∀ p d, pr.retr (pr.retr p d) (pr.neg d) = p)
+    (es : List (Nat × Env P D S ℝ)) (o : Opt P S ℝ) (ho : Consistent pr o) :
+    Consistent pr (lmRunV pr o es) := by
+  induction es generalizing o with
+  | nil => exact ho
+  | cons re es ih =>
+    show Consistent pr (lmRunV pr (lmCall pr re.1 o re.2) es)
+    exact ih _ (lmCall_spec pr re.1 re.2 hinv o ho).1
+
+/-- **Two optimizers sharing one strategy object do not interact**: the strategy has no state of its own (all of it
+lives in the param group), so interleaving the updates of two param groups in any order equals running each
+group's updates alone. `evs`: which group (`true` = first) is updated with which quality. -/
+theorem shared_strategy_independent (kd : Kind) (h : Hyper ℝ) (evs : List (Bool × ℝ × ℝ)) (s₁ s₂ : SState ℝ) :
+    evs.foldl (fun (st : SState ℝ × SState ℝ) ev =>
+        if ev.1 then (stratUpd kd h st.1 ev.2.1 ev.2.2, st.2) else (st.1, stratUpd kd h st.2 ev.2.1 ev.2.2)) (s₁, s₂) =
+      (stratRun kd h s₁ ((evs.filter (fun ev => ev.1)).map (fun ev => ev.2)),
+       stratRun kd h s₂ ((evs.filter (fun ev => !ev.1)).map (fun ev => ev.2))) := by
+  induction evs generalizing s₁ s₂ with
+  | nil => rfl
+  | cons ev evs ih =>
+    obtain ⟨b, nd⟩ := ev
+    cases b with
+    | true => simp only [List.foldl_cons, if_true, List.filter_cons, Bool.not_true, List.map_cons]; rw [ih]; simp [stratRun]
+    | false => simp only [List.foldl_cons, Bool.false_eq_true, if_false, List.filter_cons, Bool.not_false]; rw [ih]; simp [stratRun]
+
+/-- the strategy update reads the *current* param group only: editing `pg` between updates simply restarts the
+fold from the edited state (no hidden copy of an earlier damping / threshold can matter) -/
+theorem stratRun_append (kd : Kind) (h : Hyper ℝ) (s : SState ℝ) (qs₁ qs₂ : List (ℝ × ℝ)) :
+    stratRun kd h s (qs₁ ++ qs₂) = stratRun kd h (stratRun kd h s qs₁) qs₂ := by
+  unfold stratRun; rw [List.foldl_append]
+
+/-- the robust loss is a sum over items: the loss of a batch is the sum of the losses of its items taken alone
+(one kernel) — no batch-level decision -/
+theorem outputLoss_itemwise (rho : ℝ → ℝ) (o₁ o₂ : Output ℝ) :
+    outputLoss rho (o₁ ++ o₂) = outputLoss rho o₁ + outputLoss rho o₂ := by
+  rw [outputLoss_eq, outputLoss_eq, outputLoss_eq, List.map_append, List.sum_append]
+
 /-! ## non-vacuity: concrete runs of the model (`P = D = ℚ`-like reals, loss `x²`) -/
 
 section examples
